@@ -291,7 +291,8 @@ fn decimals(ctx: &mut Ctx, n: usize) {
         // digits beyond the 28th fractional place: a parse error, or within one unit in the last kept place
         let mut tails: Vec<String> = vec![];
         if scale == 28 {
-            let extra = 1 + rng.below(8);
+            let cap = if rng.chance(1, 8) { 60 } else { 8 };
+            let extra = 1 + rng.below(cap);
             tails.push((0..extra).map(|_| char::from(b'0' + rng.below(10) as u8)).collect());
             if m == max_m {
                 // the corner where rounding up does not fit the mantissa, on every run
@@ -316,7 +317,8 @@ fn decimals(ctx: &mut Ctx, n: usize) {
                         ctx.violation(sig, format!("rounded to {g}, more than one unit in the 28th place away from {d}"), json!({"text": text}));
                     }
                 }
-                Ok(Err(_)) => ctx.hit("decimal-beyond-scale-28:rejected"),
+                // "rounded only beyond the type's 28 fractional digits": such a literal denotes the rounded value, it is not an error
+                Ok(Err(e)) => ctx.violation("C08 decimal-beyond-scale-28 rejected", format!("a decimal literal with more than 28 fractional digits was rejected instead of rounded: {e}"), json!({"text": text})),
                 other => ctx.violation("C08 decimal-beyond-scale-28", format!("unexpected outcome {}", clip(format!("{other:?}"), 200)), json!({"text": text})),
             }
         }
